@@ -593,6 +593,9 @@ class ExperimentPackage(StorageStructurePathResolver):
                     if os.path.isabs(targetFolder):
                         raise ValueError("Manifest entry %s (%s) should not be an absolute path" % (
                             targetFolder, sourceFolder))
+                    if os.path.normpath(targetFolder).split(os.path.sep, 1)[0] == os.path.pardir:
+                        raise ValueError("Manifest entry %s (%s) should not point outside the instance directory" % (
+                            targetFolder, sourceFolder))
 
                     sourceFolder, method = sourceFolder.rsplit(':', 1)
                     target_folder_path = os.path.join(targetPath, targetFolder)
